@@ -68,6 +68,35 @@ def fam_pyramid(ctx, shape, fr_name):
     ctx.outcome('ok')
 
 
+def fam_moved_pyramid(ctx, shape, fr_name):
+    """multi-step: a polygon is translated in place by a symbolic vector and only then used as the base of a Pyramid /
+    measured; the function form volume() and the methods must agree with the exact values of the moved polygon"""
+    P = B.polygon(shape, fr_name)
+    v = tuple(ctx.param('v%d' % i) for i in range(3))
+    h = ctx.param('h', F(1, 4), 3)
+    base = ConvexPolygon(tuple(pt(ctx, x) for x in P.verts))
+    st, _ = call(lambda: base.move(vec(ctx, v)))
+    if st == 'raise':
+        ctx.fail('C06:ConvexPolygon.move raises %s' % exc_sig(_), repr(_))
+    n = P.n
+    nn = R.norm2(n)
+    apex = R.affine(R.vadd(P.centre, v), (h, n))
+    a2 = shoelace_sq(P.verts) / 4
+    sq_close(ctx, base.area(), a2, 'C06:area of a polygon after move')
+    st, pyr = call(lambda: G.Pyramid(base, pt(ctx, apex), direct_call=False))
+    if st == 'raise':
+        ctx.fail('C06:Pyramid on a moved base raises %s' % exc_sig(pyr), repr(pyr))
+    hh = h * h * nn                   # height^2 = (h |n|)^2
+    sq_close(ctx, pyr.height(), hh, 'C06:Pyramid.height on a moved base')
+    v2 = a2 * hh / 9
+    for name, fn in (('Pyramid.volume', pyr.volume), ('volume(Pyramid)', lambda: G.volume(pyr))):
+        st, vol = call(fn)
+        if st == 'raise':
+            ctx.fail('C06:%s raises %s' % (name, exc_sig(vol)), repr(vol))
+        sq_close(ctx, vol, v2, 'C06:%s on a moved base' % name)
+    ctx.outcome('ok')
+
+
 def _moving_polygon(ctx, shape, fr_name):
     """vertex cycle with vertex 0 moving outward/inward along the line centre->vertex (stays strictly convex)"""
     P = B.polygon(shape, fr_name)
@@ -198,6 +227,8 @@ def families(tier, seed):
         fams.append(Family('segment/%s' % fr, fam_segment, (fr,), must_reach=('ok',)))
         for sh in (('tri', 'quad') if tier == 'quick' else ('tri', 'quad', 'penta', 'hexa')):
             fams.append(Family('pyramid/%s@%s' % (sh, fr), fam_pyramid, (sh, fr), must_reach=('ok',)))
+    for sh, fr in ([('quad', 'axis'), ('tri', 'oblique')] if tier == 'quick' else [(s, f) for s in ('tri', 'quad', 'penta') for f in ('axis', 'oblique', 'pyth3')]):
+        fams.append(Family('moved-pyramid/%s@%s' % (sh, fr), fam_moved_pyramid, (sh, fr), must_reach=('ok',)))
     shapes = [('tri', 'axis'), ('quad', 'axis'), ('penta', 'axis'), ('quad', 'oblique'), ('para12', 'axis')] if tier == 'quick' else \
         [(s, f) for s in ('tri', 'quad', 'penta', 'hexa', 'para12') for f in ('axis', 'oblique', 'pyth3')]
     for sh, fr in shapes:
@@ -224,13 +255,11 @@ def families(tier, seed):
 
 
 def _twin_triangle_area():
-    import sys as _sys
-    pg = _sys.modules['Geometry3D.geometry.polygon']
-    orig = pg.get_triangle_area
-    pg.get_triangle_area = lambda a, b, c: orig(a, b, c) * 1.000001
+    orig = ConvexPolygon.area
+    ConvexPolygon.area = lambda self: orig(self) * 1.000001
 
 
-TWINS = {'triangle area off by 1e-6 relative': (r'^polygon/quad@axis/order0123$', _twin_triangle_area)}
+TWINS = {'polygon area off by 1e-6 relative': (r'^polygon/quad@axis/order0123$', _twin_triangle_area)}
 
 
 META = dict(
